@@ -40,14 +40,20 @@ def split_battery(b):
 
 SEEDS = [b"\x00" * 32, b"\xff" * 32] + seeded_fillers(2, b"c20")
 CB = CFUNCTYPE(None, c_char_p, c_void_p)
-_cb_hits = [0]
+_cb_hits = [0]          # illegal-argument callback installed by the "CB" operation
+_cb_err_hits = [0]      # error callback installed by the "CB" operation (a different function)
 
 
 def _cbfn(msg, data):
     _cb_hits[0] += 1
 
 
+def _cbfn_err(msg, data):
+    _cb_err_hits[0] += 1
+
+
 _cb = CB(_cbfn)
+_cb_err = CB(_cbfn_err)
 
 # single-context operations (a history is a tuple of op names)
 OPS = ["R0", "R1", "R2", "R3", "RN", "C+", "C0", "CL", "PCL", "CB", "DIST", "RCL"]
@@ -116,7 +122,7 @@ class CtxState:
             self.ctx, self.kind = c2, "prealloc"
         elif op == "CB":
             L.context_set_illegal_callback(self.ctx, _cb, None)
-            L.context_set_error_callback(self.ctx, _cb, None)
+            L.context_set_error_callback(self.ctx, _cb_err, None)
             self.cbs = 1
         elif op == "DIST":
             # unrelated activity: another context created, randomized, used, destroyed
@@ -142,6 +148,7 @@ def explore_case(env, hist, st):
     L, base, base_static = env
     L.cb_reset()
     _cb_hits[0] = 0
+    _cb_err_hits[0] = 0
     live0 = L.live_allocs
     a0 = L._ac.value
     cs = CtxState(L, prealloc=(len(hist) > 0 and hist[0] == "P"))
@@ -159,9 +166,23 @@ def explore_case(env, hist, st):
         g, b = split_battery(got), split_battery(base)
         bad = [op for op in b if g.get(op) != b[op]]
         st.fail("API results differ from a fresh context after history %s: battery ops %s differ" % ("/".join(hist), bad), {"cfg": L.config, "history": list(hist), "ops": bad})
-    if L.illegal or L.errors or _cb_hits[0]:
-        st.fail("callback fired during the battery (illegal=%d error=%d custom=%d)" % (L.illegal, L.errors, _cb_hits[0]), {"cfg": L.config, "history": list(hist)})
+    if L.illegal or L.errors or _cb_hits[0] or _cb_err_hits[0]:
+        st.fail("callback fired during the battery (illegal=%d error=%d custom=%d/%d)" % (L.illegal, L.errors, _cb_hits[0], _cb_err_hits[0]), {"cfg": L.config, "history": list(hist)})
         L.cb_reset()
+    # callback routing: a deliberately illegal call (NULL output at an API-level ARG_CHECK) must reach exactly the
+    # illegal-argument callback this context is supposed to carry (the installed one, or the default) - also after cloning
+    _cb_hits[0] = 0
+    _cb_err_hits[0] = 0
+    r_ = L.ec_pubkey_create(cs.ctx, None, b32(1))
+    st.calls += 1
+    want = (1, 0, 0, 0) if cs.cbs else (0, 0, 1, 0)
+    got_ = (_cb_hits[0], _cb_err_hits[0], L.illegal, L.errors)
+    if r_ != 0 or got_ != want:
+        st.fail("illegal call after history %s reached (installed illegal, installed error, default illegal, default error) = %s, expected %s" % ("/".join(hist), got_, want),
+                {"cfg": L.config, "history": list(hist)})
+    L.cb_reset()
+    _cb_hits[0] = 0
+    _cb_err_hits[0] = 0
     cs.destroy()
     if L.live_allocs != live0:
         st.fail("allocation ledger: %d allocation(s) still live after destroying the context" % (L.live_allocs - live0), {"cfg": L.config, "history": list(hist)})
@@ -235,7 +256,7 @@ def static_case(env, case, st):
     copy = buf(sz)
     ctypes.memmove(copy, L.static_ctx, sz)
     L.context_set_illegal_callback(ctypes.cast(copy, c_void_p), _cb, None)
-    L.context_set_error_callback(ctypes.cast(copy, c_void_p), _cb, None)
+    L.context_set_error_callback(ctypes.cast(copy, c_void_p), _cb_err, None)
     for which, ctx in (("static", L.static_ctx), ("copy-with-callbacks", ctypes.cast(copy, c_void_p))):
         for op in range(L.verif_battery_n_ops()):
             L.cb_reset()
